@@ -56,6 +56,7 @@ var (
 	ErrCorruptedBlock    = errors.New("block checksum mismatch")
 	ErrCorruptedEntry    = errors.New("entry data corrupted")
 	ErrEmptyKey          = errors.New("entry key cannot be empty")
+	ErrKeyTooLong        = errors.New("entry key too long: the key length is stored in 16 bits (max 65535 bytes)")
 	ErrFileClosed        = errors.New("file is closed")
 	ErrCompactionRunning = errors.New("compaction is already running")
 )
